@@ -309,6 +309,18 @@ def gen_ecases(ctx, n, types):
     return cases
 
 
+def ecase_of(c, cid, types):
+    """a stored collection {blocks, updates, q, g} as a case (final dict by the oracle-side mirror)"""
+    vd = validate_keys(c['blocks'], types)
+    cur = None if vd is None else {bl[0]: bl for bl in vd}
+    for u in c.get('updates', []):
+        vu = None if cur is None else validate_keys(u, types)
+        cur = None if vu is None else {**cur, **{bl[0]: bl for bl in vu}}
+    return {'id': cid, 'blocks': c['blocks'], 'updates': c.get('updates', []), 'q': c.get('q', []),
+            'g': c.get('g', []), 'mode': 'corpus',
+            'final': None if cur is None else [cur[t] for t in types if t in cur]}
+
+
 def st(x):
     return '"' + re.sub(r'[^A-Za-z0-9_-]', '?', str(x)) + '"%string'
 
@@ -473,8 +485,12 @@ def main(ctx):
     # 3. cases: corpus first, then the model's witnesses, then random histories
     cases = []
     corpus_dir = lib.VERIF / 'corpus' / PID
+    ecorpus = []
     for p in sorted(corpus_dir.glob('*.json')) if corpus_dir.exists() else []:
         c = json.loads(p.read_text())
+        if 'blocks' in c:       # an element collection
+            ecorpus.append(c)
+            continue
         cases.append({'id': len(cases), 'seed': 0, 'init': c['init'], 'ops': c['ops'],
                       'queries': c.get('queries'), 'origin': 'corpus:' + p.name})
     for flag, w in WITNESSES.items():
@@ -484,6 +500,8 @@ def main(ctx):
         cases.append({'id': len(cases), 'seed': ctx.rng.randrange(2 ** 62), 'bias': bias,
                       'n_ops': ctx.rng.choice([1, 2, 4, 6, 8, 10, 12, 12]), 'origin': 'random'})
     ecases = gen_ecases(ctx, n_el, types)
+    for c in ecorpus:           # corpus collections run first (ids after the random ones)
+        ecases.insert(0, ecase_of(c, len(ecases), types))
     res = run_impl(ctx, {'cases': cases, 'ecases': ecases})
     results = {r['id']: r for r in res['cases']}
     eresults = {r['id']: r for r in res['ecases']}
@@ -613,7 +631,7 @@ def main(ctx):
                       signature={'kind': 'correspondence', 'op': opk, 'paths': ','.join(paths)},
                       what='model and implementation differ')
     for cid, codes in sorted(ebad.items())[:4]:
-        c = ecases[cid]
+        c = next(x for x in ecases if x['id'] == cid)
         ctx.violation('correspondence', {'blocks': c['blocks'], 'updates': c['updates'], 'q': c['q'], 'g': c['g']},
                       'model and implementation agree on the collection summary',
                       {'codes': codes, 'impl': eresults[cid]}, 'correspondence C08 (Corr.check_summary)',
@@ -645,13 +663,7 @@ def replay(path):
     ctx = lib.Ctx(PID, 'quick')
     if 'blocks' in c:
         types = run_impl(ctx, {'cases': [], 'ecases': []}, tag='replay')['element_types']
-        vd = validate_keys(c['blocks'], types)
-        cur = None if vd is None else {bl[0]: bl for bl in vd}
-        for u in c['updates']:
-            vu = None if cur is None else validate_keys(u, types)
-            cur = None if vu is None else {**cur, **{bl[0]: bl for bl in vu}}
-        ec = {'id': 0, 'blocks': c['blocks'], 'updates': c['updates'], 'q': c['q'], 'g': c.get('g', []),
-              'final': None if cur is None else [cur[t] for t in types if t in cur]}
+        ec = ecase_of(c, 0, types)
         r = run_impl(ctx, {'cases': [], 'ecases': [ec]}, tag='replay')['ecases'][0]
         if 'error' in r:
             print(r['error'])
